@@ -130,9 +130,20 @@ type Exec struct {
 	Ticks      int
 	BadPrefix  bool // a prefix entry was out of range: replay divergence
 	MaxThreads int
+	Trace      []TraceEv
+}
+
+// TraceEv is one lock-model event: Kind is 'a' (attempt), 'g' (acquired) or
+// 'u' (released); Write tells read or write side.
+type TraceEv struct {
+	Thread int
+	Kind   byte
+	Write  bool
 }
 
 type sched struct {
+	trace    [512]TraceEv
+	ntrace   int
 	cur      int
 	threads  [MaxThreads]thread
 	n        int
@@ -184,6 +195,10 @@ var (
 	SiteTrace func(kind int, held string, site string)
 
 	uuidCounter uint64
+
+	// TraceOn makes the lock model record attempt / acquired / released events
+	// (used by the conformance self-test against the real sync.RWMutex).
+	TraceOn bool
 
 	// OnKill, if set, is called by the controller when the execution proper is
 	// over and the remaining threads are about to be unwound (race reports
@@ -274,6 +289,9 @@ func collect(s *sched, x *Exec) {
 	x.Ticks = s.ticks
 	x.BadPrefix = s.badpref
 	x.MaxThreads = s.n
+	for i := 0; i < s.ntrace; i++ {
+		x.Trace = append(x.Trace, s.trace[i])
+	}
 }
 
 //go:norace
@@ -393,6 +411,14 @@ func Note(v uint64) {
 	s := S
 	s.finger = (s.finger ^ v) * 1099511628211
 	s.events++
+}
+
+//go:norace
+func traceEv(s *sched, id int, kind byte, write bool) {
+	if TraceOn && s.ntrace < len(s.trace) {
+		s.trace[s.ntrace] = TraceEv{Thread: id, Kind: kind, Write: write}
+		s.ntrace++
+	}
 }
 
 //go:norace
@@ -819,8 +845,10 @@ func RLockModel(m *RW) bool {
 	note(s, id, KRLock)
 	t.wait = wPoint
 	yield(s, id)
+	traceEv(s, id, 'a', false)
 	if !m.wHeld {
 		m.readers++
+		traceEv(s, id, 'g', false)
 		return true
 	}
 	t.rw = m
@@ -828,6 +856,7 @@ func RLockModel(m *RW) bool {
 	t.wait = wRGrant
 	yield(s, id)
 	// readers was incremented by the granting Unlock
+	traceEv(s, id, 'g', false)
 	return true
 }
 
@@ -839,6 +868,7 @@ func RUnlockModel(m *RW) bool {
 		return false
 	}
 	m.readers--
+	traceEv(s, id, 'u', false)
 	return true
 }
 
@@ -853,6 +883,7 @@ func LockModel(m *RW) bool {
 	note(s, id, KLock)
 	t.wait = wPoint
 	yield(s, id)
+	traceEv(s, id, 'a', true)
 	for m.wHeld {
 		t.rw = m
 		t.wait = wWQueue
@@ -867,6 +898,7 @@ func LockModel(m *RW) bool {
 	}
 	m.writerActive = true
 	t.sleeps = 0
+	traceEv(s, id, 'g', true)
 	return true
 }
 
@@ -887,6 +919,7 @@ func UnlockModel(m *RW) bool {
 	}
 	m.wHeld = false
 	m.wOwner = -1
+	traceEv(s, id, 'u', true)
 	return true
 }
 
